@@ -10,8 +10,8 @@
 EXTENDS IntMath, BigNat
 
 (* bounds of a type as BigNat integers (any width up to 64) *)
-MinZTab == [t \in Types |-> IF t \in SignedTypes THEN NegZ(ZOfN(Pow2N[BitsTable[t] - 1])) ELSE Zero]
-MaxZTab == [t \in Types |-> SubZ(ZOfN(Pow2N[IF t \in SignedTypes THEN BitsTable[t] - 1 ELSE BitsTable[t]]), One)]
+MinZTab == Tabulated([t \in Types |-> IF t \in SignedTypes THEN NegZ(ZOfN(Pow2N[BitsTable[t] - 1])) ELSE Zero])
+MaxZTab == Tabulated([t \in Types |-> SubZ(ZOfN(Pow2N[IF t \in SignedTypes THEN BitsTable[t] - 1 ELSE BitsTable[t]]), One)])
 MinZ(T) == MinZTab[T]
 MaxZ(T) == MaxZTab[T]
 RepZ(T, z) == LeZ(MinZ(T), z) /\ LeZ(z, MaxZ(T))
